@@ -2,6 +2,7 @@ package props
 
 import (
 	"fmt"
+	"strings"
 
 	"zyverif/core"
 	"zyverif/lang"
@@ -33,13 +34,65 @@ func init() {
 			"reference evaluator models: lazy positions decided by the callee's formals at call time; apply/map bind already evaluated values; a lazy formal that is also the variadic tail is not generated",
 			"substitute is compared through (len (str (substitute #x))) only in programs without string/symbol literals (printing of quoted symbols is not modelled)",
 		},
-		NCases:  func(c *core.Ctx) int { return thorN(c, 4000, 60000) },
-		MustSee: []string{"thunks_forced", "lazy_params", "strict_probes_seen", "alias_defs", "recursive_fns", "substitute_uses", "battery_calls"},
+		NCases:  func(c *core.Ctx) int { return thorN(c, 4000, 60000) + len(c16Twins) },
+		MustSee: []string{"thunks_forced", "lazy_params", "strict_probes_seen", "alias_defs", "recursive_fns", "substitute_uses", "battery_calls", "lazy_strict_twins"},
 		Run:     c16Run,
 	})
 }
 
+// Lazy-versus-strict twins: programs whose lazy formals (#x, forced with FORCE) receive
+// arguments without effects of their own, so that the strict twin (x, used as x) is the oracle on
+// the real VM: value and trace must agree whatever the call route, the kind of the value bound
+// and the names bound where the force happens. L marks a lazy formal, F(x) its use.
+var c16Twins = []string{
+	// apply / map bind already evaluated values of every kind; forcing gives the value back, never runs it
+	"(defn fx [Lx] F(x)) (apply fx [(quote (tr 9 1))])", "(defn fx [Lx] F(x)) (apply fx [(quote zork)])", "(defn fx [Lx] F(x)) (apply fx [(list 1 2 3)])", "(defn fx [Lx] F(x)) (apply fx [[1 2]])",
+	"(defn fx [Lx] F(x)) (apply fx [(hash a: 1)])", "(defn fx [Lx] F(x)) (apply fx [nil])", "(defn fx [Lx] F(x)) (apply fx [\"s\"])", "(defn fx [Lx] F(x)) (apply fx [(fn [] 3)])",
+	"(defn fx [a Lx] (list a F(x))) (apply fx [1 (list 1 2 3)])", "(defn fx [a Lx] (list a F(x) F(x))) (apply fx [1 (quote (tr 9 1))])", "(defn fx [Lx] F(x)) (map fx [(quote zork) (quote n) (quote (tr 9 1))])", "(defn fx [Lx] F(x)) (map fx (list (list 1 2) (quote q)))",
+	"(defn fx [Lx & r] (list F(x) r)) (apply fx [(quote (tr 9 1)) (quote (tr 8 1))])", "(defn fx [Lx] (fn [] F(x))) ((apply fx [(quote (tr 9 1))]))", "(defn fx [Lx] F(x)) (def g fx) (apply g [(quote (tr 9 1))])",
+	// a variable of the argument expression that the forcing frame also binds must resolve in the CALLER's lexical scope
+	"(def g 8) (defn callee [Lx] (let [g 101] F(x))) (defn caller [] (callee (+ g 0))) (caller)",
+	"(def g 8) (defn callee [Lx] (def g 101) F(x)) (defn caller [] (callee (+ g 0))) (caller)",
+	"(defn callee [Lx] (let [v 500] F(x))) (defn mk [v] (fn [] (callee (+ v 1)))) ((mk 9))",
+	"(defn callee [Lx] (fn [] (let [v 3000 g 7] F(x)))) (defn mk [v] (fn [] (callee (+ v 1000)))) (((mk 10)))",
+	"(def g 8) (defn callee [Lx g] (+ g F(x))) (defn caller [] (callee (* g 2) 100)) (caller)",
+	"(defn callee [Lx n] (cond (<= n 0) F(x) (callee F(x) (- n 1)))) (defn caller [n] (callee (+ n 20) 3)) (caller 1)",
+	"(defn outer [a] (defn inner [] (callee (+ a 1))) (inner)) (defn callee [Lx] (let [a 77] (newScope (def a 78) F(x)))) (outer 5)",
+	"(def g 8) (defn callee [Lx] (for [(def g 0) (< g 1) (def g (+ g 1))] (set out F(x))) out) (def out 0) (defn caller [] (callee (+ g 0))) (caller)",
+	"(defn callee [Lx Ly] (let [p 1 q 2] (list F(y) F(x)))) (defn caller [p q] (callee (* p 10) (* q 10))) (caller 3 4)",
+	"(defn c2 [Lx] (let [w 9] F(x))) (defn c1 [Lx] (let [w 5] (c2 F(x)))) (defn caller [w] (c1 (+ w 1))) (caller 1)",
+	"(defn c2 [Lx] (let [w 9] F(x))) (defn c1 [Lx] (let [w 5] (c2 (+ w F(x))))) (defn caller [w] (c1 (+ w 1))) (caller 1)",
+	"(func callee [Lx:int64] [r:int64] (let [g 101] F(x))) (def g 8) (defn caller [] (callee (+ g 0))) (caller)",
+	"(def h (hash f: (fn [Lx] (let [g 101] F(x))))) (def g 8) (defn caller [] ((hget h f:) (+ g 0))) (caller)",
+}
+
+func c16TwinRun(c *core.Ctx, k int) *core.Result {
+	t := c16Twins[k]
+	lazy := strings.NewReplacer("Lx", "#x", "Ly", "#y", "F(x)", "(force #x)", "F(y)", "(force #y)").Replace(t) + "\n"
+	strict := strings.NewReplacer("Lx", "x", "Ly", "y", "F(x)", "x", "F(y)", "y").Replace(t) + "\n"
+	res := &core.Result{Input: lazy, Hash: core.HashOf(lazy), Nontrivial: true}
+	a, b := NewSutRun(true), NewSutRun(true)
+	oa, ob := a.Eval(lazy, 200000), b.Eval(strict, 200000)
+	res.Evals = 2
+	res.Ev("lazy_strict_twins", 1)
+	if oa.Panic != "" {
+		res.Violate("escaped-panic:"+oa.Site, oa.Panic, lazy)
+		return res
+	}
+	if ob.Err != nil || ob.Panic != "" || ob.Budget {
+		res.Verdict, res.Key, res.Detail = core.Inconclusive, "strict-twin-fails", OutStr(ob)
+		return res
+	}
+	if OutStr(oa) != OutStr(ob) || strings.Join(a.Trace, ",") != strings.Join(b.Trace, ",") {
+		res.Violate("lazy-differs-from-strict-twin", fmt.Sprintf("with lazy formals forced: %s trace %v; with strict formals: %s trace %v", OutStr(oa), a.Trace, OutStr(ob), b.Trace), lazy)
+	}
+	return res
+}
+
 func c16Run(c *core.Ctx, i int) *core.Result {
+	if base := thorN(c, 4000, 60000); i >= base {
+		return c16TwinRun(c, i-base)
+	}
 	g, prog := c16Gen(c, i)
 	text := lang.Plain.Program(prog)
 	res := &core.Result{Input: text, Hash: core.HashOf(text)}
